@@ -312,6 +312,13 @@ func c04Gen(tier string, emit func(c04Case)) {
 		push("c:format", s, true, 8)
 	}
 	flush()
+	// wrappers around unreadable texts (a byte-order mark or other prefix must not turn them into something readable)
+	for _, pre := range []string{"\xef\xbb\xbf", "\xff\xfe", "\xfe\xff", "\x00", " \n", "\xef\xbb\xbf\xef\xbb\xbf"} {
+		for _, body := range []string{"", "not json", valid[:len(valid)/2], seedProfilePlain, "{\"@id\":1}", "{\"@context\":42}", "[1,2", "{", "null x"} {
+			push("c:wrapped", pre+body, true, 8)
+		}
+	}
+	flush()
 	for _, s := range c04Misuses() {
 		push("d:jsonld", s, true, 8)
 	}
@@ -426,7 +433,7 @@ func c04Run(c *Ctx, cs c04Case) {
 			for _, sub := range [][]string{{"validate", pf, df}, {"normalize", df}} {
 				out, code := runACV(sub...)
 				c.Eval(1)
-				if code == 0 || strings.TrimSpace(out) != "" {
+				if code == 0 || c18HasReport(out) {
 					c.Violate("C04 CLI `acv "+sub[0]+"` succeeds or prints on "+cl+" data", fmt.Sprintf("exit=%d stdout=%q data=%q", code, tailStr(out, 300), tailStr(d, 300)), one)
 				}
 				c.Outcome("cli " + sub[0] + " exit!=0")
